@@ -56,7 +56,10 @@ requires valid_config(%(modes)s), modes_fit(%(modes)s)
 ensures
     // the scanner the scanning layer receives is well formed, starts in mode 0, and mode k is the compiled form of mode k of the configuration
     r matches Ok(s) ==> scanner_wf(s) && s.current_mode == 0 && s.scanner_modes@.len() == %(modes)s.len()
-        && forall|k: int| 0 <= k < %(modes)s.len() ==> mode_built(%(modes)s, k, #[trigger] s.scanner_modes@[k]),
+        && (forall|k: int| 0 <= k < %(modes)s.len() ==> mode_built(%(modes)s, k, #[trigger] s.scanner_modes@[k]))
+        // the registry stored in the scanner (and handed to create_match_char_class) is the final one: every class id of every automaton indexes into it
+        // (theorem_scanner_classes_registered)
+        && s.character_classes.view() == final_reg(%(modes)s),
 '''
 FINAL = '''
 proof {
@@ -95,6 +98,7 @@ items += [
     RawFile(os.path.join(HERE, '..', 'common', 'dfa_wf.rs'), 'dfa_wf.rs'),
     RawFile(os.path.join(HERE, '..', 'common', 'dfa_match.rs'), 'dfa_match.rs'),
     RawFile('build_lang.rs'),
+    RawFile('build_cls.rs'),
     RawFile(os.path.join(HERE, '..', 'common', 'scanner_wf.rs'), 'scanner_wf.rs'),
     RawFile('build_spec.rs'),
     Raw('''
